@@ -65,8 +65,15 @@ def check_decoder(ctx, key, rule="R-1"):
 
 def check(ctx):
     prog = ctx.prog
+    # the duplicate sets hold clones of the normalised labels and find them by their (derived) equality
+    from rules import structs_common as _S
+    _S.check_derived_impls(ctx, "R-1", {"core::clone::Clone", "core::cmp::PartialEq", "core::cmp::Eq"})
     for key in DECODERS:
         check_decoder(ctx, key)
+    # ... at every nesting position: no caller of a decoder turns the duplicate-label rejection into acceptance (C15 R-5's rule
+    # for this error; a recipient / signer list that skips entries it cannot decode swallows it)
+    from rules import c15
+    c15.check_rejections_propagate(ctx, "R-1", set(), variants=("DuplicateMapKey",), what="a duplicate map label", floor=20)
     for key in ENCODERS:
         f = prog.fn(key)
         me = MapEncoder(prog, f)
